@@ -150,7 +150,13 @@ Inductive constr :=
 (* h_id is the identity of the parameter object: the model stamps every object
    it creates with the number of the operation that created it (1, 2, ...;
    0 is the root map), so identities grow with creation = insertion order *)
-Record hdr := mkHdr { h_id : nat; h_key : string; h_prio : Q }.
+(* h_seq is the number of the operation that put the object into the map it is
+   listed in now (for an object constructed with a parent, or not attached yet:
+   the operation that created it).  Among children of equal priority it is the
+   insertion order.  An object built parent-less and attached later keeps its
+   identity and gets a new h_seq at the attachment. *)
+Record hdr := mkHdrS { h_id : nat; h_key : string; h_prio : Q; h_seq : nat }.
+Definition mkHdr (id : nat) (key : string) (prio : Q) : hdr := mkHdrS id key prio id.
 
 Inductive param :=
 | Leaf (h : hdr) (ro : bool) (c : constr) (dflt val : pyval)
@@ -160,6 +166,15 @@ Definition phdr (p : param) : hdr := match p with Leaf h _ _ _ _ => h | Map h _ 
 Definition pkey (p : param) : string := h_key (phdr p).
 Definition pprio (p : param) : Q := h_prio (phdr p).
 Definition pid (p : param) : nat := h_id (phdr p).
+Definition pseq (p : param) : nat := h_seq (phdr p).
+
+(* the same object, listed from operation n on *)
+Definition restamp (n : nat) (p : param) : param :=
+  let f := fun h => mkHdrS (h_id h) (h_key h) (h_prio h) n in
+  match p with
+  | Leaf h ro c d v => Leaf (f h) ro c d v
+  | Map h ch => Map (f h) ch
+  end.
 
 Fixpoint find_child (k : string) (ch : list param) : option param :=
   match ch with
@@ -599,7 +614,14 @@ Inductive op :=
                                                     one object a member of two maps; that is outside this tree
                                                     model and is flagged [OOutside] (the harness ends a sequence
                                                     there). *)
-| OInspect (path : string).                      (* p = root.get(path); what p reports through its public
+| OInspect (path : string)
+(* bottom-up construction: parent-less objects, operations on them, attaching them *)
+| ONew (s : pspec)                               (* p = Cls(...) without parent: a new parent-less object *)
+| OFree (i : nat) (o : op)                       (* o, applied to the parent-less object of identity i in place of
+                                                    the model's root map (o = OAddCtor / OAddMeth / OSet / OGet /
+                                                    OInspect / ORemove / OReAdd / OAttach) *)
+| OAttach (i : nat) (dst : option string).       (* (T | T.get(dst)).add(<the parent-less object i>), T the root map
+                                                    (or, inside OFree j, the parent-less object j) *)                      (* p = root.get(path); what p reports through its public
                                                     properties: read_only, display_priority, and
                                                     min_value / max_value | min_si / max_si / type | options | unittype *)
 
@@ -665,6 +687,7 @@ Definition step_root (q : quirks) (id : nat) (root : param) (o : op) : param * o
       | Val (Map h _) => (root, ODecl true (h_prio h) None)       (* a map is read-only by definition *)
       | Raise e => (root, ORaise e)
       end
+  | ONew _ | OFree _ _ | OAttach _ _ => (root, OOutside)      (* operations on the forest: see [step] *)
   | ORemove path =>
       match remove_at (segments path) root with
       | Val (root', x) => (root', OParam (pid x))
@@ -769,6 +792,7 @@ Definition step_root_lit (q : quirks) (id : nat) (root : param) (o : op) : param
       | Val (Map h _) => (root, ODecl true (h_prio h) None)
       | Raise e => (root, ORaise e)
       end
+  | ONew _ | OFree _ _ | OAttach _ _ => (root, OOutside)
   | ORemove path =>
       match py_remove root path with
       | Val (root', x) => (root', OParam (pid x))
@@ -816,12 +840,100 @@ Definition step_root_lit (q : quirks) (id : nat) (root : param) (o : op) : param
       end
   end.
 
-(* the whole state: the tree of a DSOLModel and the number of the next operation *)
-Record state := mkState { st_root : param; st_next : nat }.
+(* the whole state: the tree of a DSOLModel, the parent-less objects built so far
+   (in creation order; each is the root of its own tree) and the number of the
+   next operation *)
+Record state := mkState { st_root : param; st_next : nat; st_free : list param }.
 
-Definition step (q : quirks) (st : state) (o : op) : state * out :=
-  let '(root', r) := step_root_lit q (st_next st) (st_root st) o in
-  (mkState root' (S (st_next st)), r).
+Fixpoint find_free (i : nat) (l : list param) : option param :=
+  match l with
+  | [] => None
+  | t :: r => if Nat.eqb (pid t) i then Some t else find_free i r
+  end.
+
+Fixpoint remove_free (i : nat) (l : list param) : list param :=
+  match l with
+  | [] => []
+  | t :: r => if Nat.eqb (pid t) i then r else t :: remove_free i r
+  end.
+
+Fixpoint replace_free (i : nat) (t' : param) (l : list param) : list param :=
+  match l with
+  | [] => []
+  | t :: r => if Nat.eqb (pid t) i then t' :: r else t :: replace_free i t' r
+  end.
+
+(* the tree an operation works on: the model's root map, or a parent-less object *)
+Definition target := option nat.
+
+Definition get_target (root : param) (free : list param) (tg : target) : option param :=
+  match tg with None => Some root | Some j => find_free j free end.
+
+Definition set_target (root : param) (free : list param) (tg : target) (t' : param) : param * list param :=
+  match tg with None => (t', free) | Some j => (root, replace_free j t' free) end.
+
+Definition split_target (o : op) : target * op :=
+  match o with OFree j o' => (Some j, o') | _ => (None, o) end.
+
+(* One operation on the forest, over the functions that act on one tree:
+   [tstep] the tree operations, [ctor] the parent-less constructor call,
+   [attach] par.add(t) at a path of the target.  [step] instantiates them with
+   the transcription, GenAgree.v with the functions generated from the source. *)
+Definition step_with
+    (tstep : nat -> param -> op -> param * out)
+    (ctor : nat -> pspec -> res param)
+    (attach : option string -> param -> param -> res param)
+    (st : state) (o : op) : state * out :=
+  let n := st_next st in
+  let root := st_root st in
+  let free := st_free st in
+  let same := fun r => (mkState root (S n) free, r) in
+  let '(tg, o') := split_target o in
+  match get_target root free tg with
+  | None => same OOutside                              (* no such parent-less object *)
+  | Some T =>
+      match o' with
+      | ONew s =>
+          match tg with
+          | Some _ => same OOutside
+          | None =>
+              match ctor n s with
+              | Raise e => same (ORaise e)
+              | Val p => (mkState root (S n) (free ++ [p]), ONone)
+              end
+          end
+      | OFree _ _ => same OOutside
+      | OAttach i dst =>
+          match find_free i free with
+          | None => same OOutside
+          | Some t =>
+              if match tg with Some j => Nat.eqb i j | None => false end
+              then same OOutside                       (* an object offered to itself: a cycle, not a tree *)
+              else
+                match attach dst (restamp n t) T with
+                | Raise e => same (ORaise e)           (* refused: t stays parent-less, nothing changes *)
+                | Val T' =>
+                    let '(root', free') := set_target root (remove_free i free) tg T' in
+                    (mkState root' (S n) free', ONone)
+                end
+          end
+      | _ =>
+          let '(T', r) := tstep n T o' in
+          let '(root', free') := set_target root free tg T' in
+          (mkState root' (S n) free', r)
+      end
+  end.
+
+(* Cls(...) without parent *)
+Definition ctor_free (q : quirks) (n : nat) (s : pspec) : res param :=
+  match ctor_checks q s None with Some e => Raise e | None => Val (node_of n s) end.
+
+(* par = T | T.get(dst); par.add(t) *)
+Definition attach_seg (dst : option string) (t T : param) : res param := modify (psegs dst) (map_add t) T.
+Definition attach_lit (dst : option string) (t T : param) : res param := py_modify_at dst (map_add t) T.
+
+Definition step (q : quirks) : state -> op -> state * out :=
+  step_with (step_root_lit q) (ctor_free q) attach_lit.
 
 Fixpoint run (q : quirks) (st : state) (ops : list op) : state :=
   match ops with
@@ -831,7 +943,7 @@ Fixpoint run (q : quirks) (st : state) (ops : list op) : state :=
 
 (* DSOLModel.__init__ : InputParameterMap("root", "parameters", 1) *)
 Definition root_key : string := "root"%string.
-Definition init : state := mkState (Map (mkHdr 0 root_key 1) []) 1.
+Definition init : state := mkState (Map (mkHdr 0 root_key 1) []) 1 [].
 
 (* ------------------------------------------------------------------ observation *)
 (* every parameter below (and including) p with its extended key, pre-order =
@@ -854,6 +966,11 @@ Definition entry_of (e : string * param) : dump_entry :=
   end.
 
 Definition dump_root (root : param) : list dump_entry := map entry_of (ext_keys EmptyString root).
+
+(* the model's tree, then every parent-less object with what hangs below it
+   (their extended keys start at their own key) *)
+Definition dump_state (st : state) : list dump_entry :=
+  dump_root (st_root st) ++ flat_map dump_root (st_free st).
 
 (* ------------------------------------------------------------------ equality of observables *)
 Definition q_eqb (a b : Q) : bool := Z.eqb (Qnum a) (Qnum b) && Pos.eqb (Qden a) (Qden b).
@@ -964,13 +1081,13 @@ Fixpoint trace_bad (q : quirks) (i : nat) (st : state) (prev : list dump_entry) 
   | [] => None
   | (o, expected, d) :: r =>
       let '(st', got) := step q st o in
-      let now := dump_root (st_root st') in
+      let now := dump_state st' in
       let want := match d with Some x => x | None => prev end in
       if out_eqb got expected && dump_eqb now want then trace_bad q (S i) st' want r else Some i
   end.
 
 Definition case_bad (q : quirks) (l : list obs) : option nat :=
-  trace_bad q 0 init (dump_root (st_root init)) l.
+  trace_bad q 0 init (dump_state init) l.
 
 Definition case_ok (q : quirks) (l : list obs) : bool :=
   match case_bad q l with None => true | Some _ => false end.
